@@ -98,9 +98,15 @@ def initialBases (s : St) (c : Nat) : List Nat :=
   | some ci => ci.objs.filterMap id
   | none => []
 
-/-- `Class.mro()` while `_mro` is not set yet: `list(self.allbases(True))` -/
+/-- `Class.mro()` while `_mro` is not set yet (since fix 7c3f474): the C3 order over the bases resolved so far
+(`mro.mro(self, lambda c: [b for b in c.baseobjects if b is not None])`), or `list(self.allbases(True))` when they
+cannot be linearised (`ValueError`; a cycle: `RecursionError` — here the fuel) -/
 def midMro (s : St) : List (Nat × List Nat) :=
-  s.cinfo.map fun e => (e.1, Mro.allbasesFuel (initialBases s) (fun _ => false) (s.reg.objs.length + 1) e.1)
+  let fuel := s.reg.objs.length + 1
+  s.cinfo.map fun e =>
+    (e.1, match Mro.mroFuel (initialBases s) fuel e.1 with
+      | some l => l
+      | none => Mro.allbasesFuel (initialBases s) (fun _ => false) fuel e.1)
 
 /-- the registry as the name-resolution functions see it during the AST pass -/
 def envOf (s : St) : Names.Env := ⟨s.reg, midMro s⟩
@@ -770,8 +776,9 @@ def definesAny (proj : Project) (t : Nat) (n : Name) : Bool :=
 
 /-- `from <package> import n`: pydoctor also calls `getProcessedModule('<package>.n')`.  When `n` is a submodule,
 that is an import edge (the submodule's rank is below the importer's).  When it is not, the lookup must not find
-a module through the package's alias map: `n` is not the name of a root module, the package does not star-import,
-and if the package binds `n` by an import it is `from t' import n' [as n]` of a top-level definition `n'` of `t'` -/
+a module through the package's alias map: the package does not star-import, and if the package binds `n` by an
+import it is `from t' import n' [as n]` of a top-level definition `n'` of `t'`.  (Before fix 996ac8b `n` also had
+to be no root module's name: `find_object` fell back to the bare name.) -/
 def pkgFromOk (proj : Project) (rank : List Nat) : Bool :=
   allProj proj fun m _ st =>
     match st with
@@ -782,7 +789,7 @@ def pkgFromOk (proj : Project) (rank : List Nat) : Bool :=
          (match modIdx proj (pathOf proj t ++ [n]) with
           | some c => decide (rankOf rank c < rankOf rank m)
           | none =>
-            !isRootName proj n && !(bodyOf proj t).any isStarStmt &&
+            !(bodyOf proj t).any isStarStmt &&
             (bodyOf proj t).all fun st' =>
               !(isImportStmt st' && (explicitNames st').contains n) ||
               (match st' with
